@@ -136,6 +136,9 @@ type agg struct {
 // consider registers a candidate; the first witness of every (entry, rule, class) is
 // reproduced right away by the calling worker.
 func (a *agg) consider(c *cand) {
+	if c.comp == "" {
+		c.comp = c.entry
+	}
 	k := c.entry + "|" + c.rule + "|" + c.class
 	a.mu.Lock()
 	if old, ok := a.cands[k]; ok {
@@ -266,7 +269,7 @@ func (a *agg) merge(e *entry, state string, from int, r *result) {
 		switch p.Owner {
 		case "bng":
 			in, _ := hex.DecodeString(p.Input)
-			a.consider(&cand{entry: e.name, state: state, rule: "no-panic", class: p.Site + "#" + panicKind(p.Msg), kind: "recovered", idx: p.Idx, input: in, aux: p.Aux, msg: p.Msg, site: p.Site, stack: p.Stack, from: from})
+			a.consider(&cand{entry: e.name, comp: e.comp, state: state, rule: "no-panic", class: p.Site + "#" + panicKind(p.Msg), kind: "recovered", idx: p.Idx, input: in, aux: p.Aux, msg: p.Msg, site: p.Site, stack: p.Stack, from: from})
 		case "thirdparty":
 			run.Count("observed_third_party_panics/"+e.name, 1)
 			run.Distinct("third_party_panic_sites", p.Site)
@@ -276,7 +279,7 @@ func (a *agg) merge(e *entry, state string, from int, r *result) {
 	}
 	for _, n := range r.Notes {
 		in, _ := hex.DecodeString(n.Input)
-		a.consider(&cand{entry: e.name, state: state, rule: n.Rule, class: n.Class, kind: "note", idx: n.Idx, input: in, msg: n.Desc, extra: n.Extra, from: from})
+		a.consider(&cand{entry: e.name, comp: e.comp, state: state, rule: n.Rule, class: n.Class, kind: "note", idx: n.Idx, input: in, msg: n.Desc, extra: n.Extra, from: from})
 	}
 }
 
@@ -310,11 +313,11 @@ func runJob(a *agg, jb job, fatalBudget *int64) {
 		case res != nil && res.HangIdx != nil:
 			kind = "hang"
 			site := hangSite(stderr)
-			a.consider(&cand{entry: jb.e.name, state: jb.state, rule: "no-hang", class: "watchdog-10s@" + site, kind: "hang", idx: j.Idx, input: j.Input, aux: j.Aux, site: site,
+			a.consider(&cand{entry: jb.e.name, comp: jb.e.comp, state: jb.state, rule: "no-hang", class: "watchdog-10s@" + site, kind: "hang", idx: j.Idx, input: j.Input, aux: j.Aux, site: site,
 				msg: "input still being processed after the 10 s watchdog; goroutine busy in " + site, stack: tail(stderr, 6000), from: from})
 		case strings.Contains(stderr, "C09-LISTENER-DEAD"):
 			kind = "listener"
-			a.consider(&cand{entry: jb.e.name, state: jb.state, rule: "listener-alive", class: "no-answer-to-valid-probe", kind: "listener", idx: j.Idx, input: j.Input, aux: j.Aux,
+			a.consider(&cand{entry: jb.e.name, comp: jb.e.comp, state: jb.state, rule: "listener-alive", class: "no-answer-to-valid-probe", kind: "listener", idx: j.Idx, input: j.Input, aux: j.Aux,
 				msg: "listener stopped answering a well-formed probe although the process is alive", stack: tail(stderr, 6000), from: from})
 		default:
 			msg, site, owner := parseCrash(stderr)
@@ -325,7 +328,7 @@ func runJob(a *agg, jb job, fatalBudget *int64) {
 				if strings.HasPrefix(msg, "fatal error") {
 					rule = "no-fatal-error"
 				}
-				a.consider(&cand{entry: jb.e.name, state: jb.state, rule: rule, class: site + "#" + panicKind(msg), kind: "fatal", idx: j.Idx, input: j.Input, aux: j.Aux,
+				a.consider(&cand{entry: jb.e.name, comp: jb.e.comp, state: jb.state, rule: rule, class: site + "#" + panicKind(msg), kind: "fatal", idx: j.Idx, input: j.Input, aux: j.Aux,
 					msg: msg + " [process died]", site: site, stack: tail(stderr, 6000), from: from})
 			}
 		}
@@ -353,7 +356,11 @@ func tail(s string, n int) string {
 	return s[len(s)-n:]
 }
 
-func TestHammer(t *testing.T) {
+func TestHammer(t *testing.T) { hammer(t, entries(), "") }
+
+// hammer runs every (entry point, state) stream of es in child processes and judges the
+// candidates; pfx distinguishes the evidence keys of the second (stateful) pass.
+func hammer(t *testing.T, es []*entry, pfx string) {
 	var err error
 	base := os.Getenv("VERIF_BUILD")
 	if base == "" {
@@ -368,7 +375,7 @@ func TestHammer(t *testing.T) {
 
 	var jobs []job
 	budgets := map[string]*int64{}
-	for _, e := range entries() {
+	for _, e := range es {
 		if only != "" && !strings.Contains(e.name, only) {
 			continue
 		}
@@ -437,19 +444,21 @@ func TestHammer(t *testing.T) {
 	wg.Wait()
 
 	judge(t, a)
-	run.Extra("entry_points", len(budgets))
-	run.Extra("child_processes", atomic.LoadInt64(&childSeq))
+	run.Extra(pfx+"entry_points", len(budgets))
+	run.Extra(pfx+"child_processes", atomic.LoadInt64(&childSeq))
 	mc := map[string]float64{}
 	for k, v := range a.maxCall {
 		mc[k] = float64(v) / 1e3
 	}
-	run.Extra("max_call_us_by_entry", mc)
-	run.Extra("worker_seconds_by_entry", a.jobWall)
+	run.Extra(pfx+"max_call_us_by_entry", mc)
+	run.Extra(pfx+"worker_seconds_by_entry", a.jobWall)
 	sc := map[string]any{}
 	for k, v := range a.scales {
 		sc[k] = v
 	}
-	run.Extra("scaling_probe", sc)
+	if len(sc) > 0 || pfx == "" {
+		run.Extra(pfx+"scaling_probe", sc)
+	}
 	names := make([]string, 0, len(a.samples))
 	for k := range a.samples {
 		names = append(names, k)
@@ -459,8 +468,12 @@ func TestHammer(t *testing.T) {
 		run.Sample(a.samples[k])
 	}
 	if only == "" {
-		for _, e := range entries() {
+		for _, e := range es {
 			run.Floor("inputs/"+e.name, int64(run.Pick(e.quick, e.thorough)/10))
+			if e.gateFloor != nil {
+				// a run that never reaches the guarded code of a gated handler is inconclusive
+				run.Floor("gate_passed/"+e.name, int64(e.gateFloor(run.Thorough())))
+			}
 		}
 	}
 	if os.Getenv("VERIF_C09_KEEP") == "" { // witnesses are in the replay files; the children's directories are scratch
@@ -473,6 +486,7 @@ func TestHammer(t *testing.T) {
 
 type cand struct {
 	entry, state string
+	comp         string // component reported (default: the entry's name)
 	rule, class  string
 	kind         string // recovered | fatal | hang | listener | note
 	idx          int
@@ -532,13 +546,16 @@ func judge(t *testing.T, a *agg) {
 		}
 		run.Count("confirmed_candidates", 1)
 		desc := fmt.Sprintf("%s in state %q: %s; %d byte input %s (%s, %d witnesses in this run)", c.entry, c.state, c.msg, len(c.input), hexShort(c.input), v.how, c.count)
+		if c.comp != c.entry {
+			desc += "; stateful case: the object is first driven into the state by the legitimate exchange, then gets this input (placeholders for the live session / client resolved at delivery), then a legitimate follow-up on the same object - the failure may surface in the follow-up"
+		}
 		w := map[string]any{
 			"entry": c.entry, "state": c.state, "input_hex": hex.EncodeToString(c.input), "input_index": c.idx,
 			"auxiliary_well_formed_frame": c.aux, "kind": c.kind, "message": c.msg, "site": c.site,
 			"stack": tail(c.stack, 3000), "reproduced": v.how, "witnesses": c.count, "extra": c.extra,
 			"replay": "VERIF_C09_SPEC=<file with {\"entry\":...,\"state\":...,\"inputs\":[input_hex],\"dir\":<scratch dir>}> on the test binary",
 		}
-		run.Violation(c.entry, c.rule, c.class, desc, w)
+		run.Violation(c.comp, c.rule, c.class, desc, w)
 	}
 }
 
